@@ -259,6 +259,12 @@ func (fv *FV) extendSelection(p *Path, sel *types.Selection, pos token.Pos, n in
 			fv.abort(pos, "selection through non-struct %s", t)
 		}
 		f := st.Field(idx[i])
+		if so := fv.ss.Of(t); so.Kind == KOpaque && f.Embedded() && fv.ss.Of(f.Type()) == so {
+			// an opaque wrapper struct around an embedded value of the same opaque sort (go-libs time.Time embeds
+			// time.Time; both are one uninterpreted sort): the promoted method sees the wrapper value itself
+			t = f.Type()
+			continue
+		}
 		p = extend(p, PathStep{Kind: StField, Field: f.Name(), Pos: pos})
 		t = f.Type()
 	}
